@@ -329,7 +329,7 @@ def add_faults(casefn, kinds, frac=0.6, cont=0.0):
                     c["cont"] = 1
                 # the FIRST answer defines the layout (any subset and permutation of the output-capable signals):
                 # at call 0 only faults that keep it such a layout are meaningful as "the first answer"
-                c["faults"] = [((1 if (k == 0 and what.split()[0] in ("add", "dup", "subst", "widen", "addw")) else k), what) for k, what in c["faults"]]
+                c["faults"] = [((1 if (k == 0 and what.split()[0] in ("add", "dup", "subst", "widen", "addw", "swapsig")) else k), what) for k, what in c["faults"]]
         return cases
     return f
 
@@ -975,7 +975,7 @@ PROPS["C13"] = {
         {"pC": 0.1, "maxdepth": 3, "reads": 0.2, "echo": 1.0},
         {"pC": 0.1, "maxdepth": 2, "reads": 0.2, "n_bidir": 1, "out_twin": 0.8, "full_layout": True},
         {"pC": 0.1, "maxdepth": 2, "reads": 0.0, "pZX": 0.5, "full_layout": True, "n_bidir": 1},
-    ]), ["err", "drop", "add", "dup", "swap", "subst", "widen", "addw"], 0.8, cont=0.4),
+    ]), ["err", "drop", "add", "dup", "swap", "subst", "widen", "addw", "swapsig"], 0.8, cont=0.4),
     "tags": ("NEW", "CALL", "ROW", "ITEM", "END"),
     "nontrivial": lambda c, t: any(x == "ITEM" for x, _ in t) or any(x == "NEW" and r.startswith("err") for x, r in t),
     "oracles": [attribution_oracle, protocol_oracle, no_panic_oracle],
